@@ -185,22 +185,30 @@ def run_impl(cases, tier):
         f.write("".join("disturbance line %06d %s\n" % (k, "d" * 120) for k in range(20000)))
     stop = {"flag": False, "n": 0}
 
-    def disturb():
-        import time as _t
-        while not stop["flag"]:
+    def disturb_once():
             for s_ in servers.values():
-                env.client("dgrep", ["--plain", "--regex", "disturbance", "--max", "1", "--files", big], servers=[s_], timeout=60)
+                env.client("dgrep", ["--plain", "--regex", "disturbance", "--max", "1", "--files", big], servers=[s_], timeout=30)
                 cmd = [os.path.join(srv.BIN, "dcat"), "--cfg", "none", "--servers", "127.0.0.1:%d" % s_.port, "--trustAllHosts",
                        "--key", env.key, "--user", "root", "--plain", "--files", big]
                 p = subprocess.Popen(cmd, stdin=subprocess.DEVNULL, stdout=subprocess.PIPE, stderr=subprocess.DEVNULL, env=env.client_env(), cwd=env.dir)
                 p.stdout.read(4096)
                 p.kill(); p.wait()
                 stop["n"] += 2
-            _t.sleep(0.2)
+
+    def disturb():
+        import time as _t
+        while not stop["flag"]:
+            disturb_once()
+            for _ in range(20):
+                if stop["flag"]:
+                    break
+                _t.sleep(0.1)
 
     import threading
     th = threading.Thread(target=disturb, daemon=True)
     if servers:
+        for _ in range(3):
+            disturb_once()
         th.start()
     with ThreadPoolExecutor(vf.NCPU) as ex:
         obs = list(ex.map(one, cases))
@@ -276,7 +284,7 @@ def _literal_cost(b):
 
 # not anchored at a line start: with a delimiter byte in the content (the other recorded finding) a line arrives
 # in several messages and the log record can be printed between two of them
-WARN_RE = re.compile(rb"(?:SERVER|CLIENT)\|[^\n|]*\|WARN\|[^\n]*?\|Long log line, splitting into multiple lines\n")
+WARN_RE = re.compile(rb"(?:SERVER|CLIENT)\|[^\n|]*\|WARN\|[^\n]*?\|(?:Long log line, splitting into multiple lines|Some lines remain unsent\|\d+)\n")
 
 
 def strip_warn(case, out):
